@@ -391,6 +391,13 @@ class Report:
                 print("VIOLATION property=%s replay=%s" % (self.prop, v.get("replay", "-")))
                 print("  key: %s" % v["key"])
                 print("  what: %s" % str(v.get("what", ""))[:1500])
+        if os.environ.get("VERIF_DUMP"):
+            with open(os.environ["VERIF_DUMP"], "w") as fh:
+                done = set()
+                for v in self.violations:
+                    if v["key"] not in done:
+                        done.add(v["key"])
+                        fh.write(json.dumps(dict(key=v["key"], what=str(v.get("what", ""))[:600], replay=v.get("replay"))) + "\n")
         status = 0
         if self.violations:
             status = 1
